@@ -82,8 +82,11 @@ def run(chk):
                 chk.violation("WriteFile:%s" % f, "firmware upload: %s" % WHAT.get(f, f), brief)
             if not mine:
                 chk.drift("L3-sequence", "WriteFile %s" % sorted(flags), brief)
-    chk.cov["traces_validated_against_impl"] = total + len(cases)
-    chk.cov["evaluations"] = total + len(cases)
+    # the shipped program that uploads: feig_update as a process, over a real TCP connection (L5, spec/cli)
+    import tool_common
+    ntool = tool_common.run(chk, "C11", thorough)
+    chk.cov["traces_validated_against_impl"] = total + len(cases) + ntool
+    chk.cov["evaluations"] = total + len(cases) + ntool
     chk.cov["distinct_nontrivial"] = total
     chk.cov["data_blocks_checked"] = blocks
     chk.cov["rule"] = ("impl -> spec: seeded random payload directories on disk (1-21 of the recognised paths plus unrelated files, sizes 0..200 KiB, "
@@ -91,7 +94,13 @@ def run(chk):
                        "offset 2^32-1, unannounced ids, missing id / offset / file / TLV) ending in completion, abort or a foreign frame; TLC decodes "
                        "the announcement and every data block with the reference codec and compares with the directory (content for files <= 4 KiB; "
                        "for larger files the harness compares the payload with its own copy and TLC checks id, offset, length and that flag). "
-                       "spec -> impl: all WriteFile scripts of MC_Sequence replayed. distinct_nontrivial = random uploads (distinct seeds)")
+                       "spec -> impl: all WriteFile scripts of MC_Sequence replayed. The update tool (zvt_cli feig_update) runs as a process against "
+                       "a scripted terminal on a loopback TCP connection for the runs MC_FeigUpdate generates (one terminal behaviour per stage x "
+                       "forced x payload version, short flat scripts, perturbed scripts); what it wrote is taken at the system call (strace) and "
+                       "judged by TraceTool: the announcement and the blocks by P_C11, the whole run against FeigUpdate!RunTool. "
+                       "distinct_nontrivial = random uploads (distinct seeds)")
     chk.assumptions += ["for files above 4 KiB the bit-for-bit comparison of a block is done by the harness against the bytes it wrote to disk",
-                        "the path -> id table (21 entries) is restated in spec/sequence/WriteFile.tla"]
+                        "the path -> id table (21 entries) is restated in spec/sequence/WriteFile.tla",
+                        "tool runs: strace reports the tool's writes faithfully; the payload files of the tool runs are <= 30 bytes (block logic is "
+                        "covered by the in-process uploads)"]
     shutil.rmtree(wd, ignore_errors=True)
